@@ -12,6 +12,8 @@
 //	                    interpreter of the *extracted* schema produces, after checking that their double SHA-256
 //	                    is what ledger.MakeBlockID returns                             -> <hex>
 //	vb <base> m=<mut>   Ledger.VerifyBlock on a node-formatted block after one mutation -> accept|reject|n/a
+//	                    known=1: the honest block was confirmed on this ledger before; stored=1: the mutated block
+//	                    extends the tip of the ledger and, if it passes, is confirmed and read back from storage
 //
 // C07 op lines: see tx.go.
 package main
